@@ -72,6 +72,8 @@ def plan(tier, seed):
             # quick/async: the deepest level is sampled with a rotating stride (every element still occurs under some prefix)
             specs.append({"name": f"tree-p{pi}-{api}", "kind": "tree", "provider": pi, "api": api, "depth": depth, "stride": (6 if api == "async" else 2) if tier == "quick" else (48 if api == "async" else 16)})
     specs.append({"name": "long", "kind": "long", "max_legs": 12 if tier == "quick" else 40})
+    for api in ("sync", "async"):
+        specs.append({"name": f"two-connections-{api}", "kind": "two_connections", "api": api, "n": 60 if tier == "quick" else 800})
     specs.append({"name": "real", "kind": "real", "n": 6 if tier == "quick" else 60})
     return specs
 
@@ -102,7 +104,9 @@ def alphabet(position: int) -> t.List[tuple]:
         # a bind_ack where an alter_context_resp is due is an unexpected PDU type.  (The converse - an
         # alter_context_resp answering the bind - has the same layout and is not judged: see DESIGN.md section 8.)
         out.append(ack_elem(wrong, "AN", True, True))
-    out += [("bind_nak",), ("fault",), ("response",), ("eof",)]
+    # rejections in every flavour a server can send them: a fault with the "did not execute" / "maybe" / "pending cancel" packet
+    # flags or another status, a bind_nak with another reason - all of them are rejections and must surface as errors
+    out += [("bind_nak",), ("fault",), ("response",), ("eof",), ("fault", 0x20), ("fault", 0x40), ("fault", 0x10, 0x1C010003), ("fault", 0x20, 0x1C00001B), ("bind_nak", 0), ("bind_nak", 8)]
     return out
 
 
@@ -117,9 +121,9 @@ def encode_elem(elem: tuple, idx: int, call_id: int = 1) -> t.Optional[bytes]:
             dict(ptype=rrpc.BIND_ACK if kind == "bind_ack" else rrpc.ALTER_CONTEXT_RESP, flags=FL | (4 if sign else 0), call_id=call_id, auth=auth, max_xmit=5840, max_recv=5840, assoc=7, sec_addr="49668" if kind == "bind_ack" else "", results=results)
         )
     if elem[0] == "bind_nak":
-        return rrpc.encode(dict(ptype=rrpc.BIND_NAK, flags=FL, call_id=call_id, auth=None, reason=4, versions=[(5, 0)]))
+        return rrpc.encode(dict(ptype=rrpc.BIND_NAK, flags=FL, call_id=call_id, auth=None, reason=elem[1] if len(elem) > 1 else 4, versions=[(5, 0)]))
     if elem[0] == "fault":
-        return rrpc.encode(dict(ptype=rrpc.FAULT, flags=FL, call_id=call_id, auth=None, alloc_hint=0, ctx_id=0, cancel_count=0, fault_flags=0, status=5, stub=b""))
+        return rrpc.encode(dict(ptype=rrpc.FAULT, flags=FL | (elem[1] if len(elem) > 1 else 0), call_id=call_id, auth=None, alloc_hint=0, ctx_id=0, cancel_count=0, fault_flags=0, status=elem[2] if len(elem) > 2 else 5, stub=b""))
     if elem[0] == "response":
         return rrpc.encode(dict(ptype=rrpc.RESPONSE, flags=FL, call_id=call_id, auth=None, alloc_hint=4, ctx_id=0, cancel_count=0, stub=b"\0\0\0\0"))
     return None  # eof
@@ -434,10 +438,89 @@ def run_real(spec, rec: Recorder):
             dc.close()
 
 
+def run_two_connections(spec, rec: Recorder):
+    """Header signing is a per-connection decision.  Two or three connections are alive at once, their servers advertise
+    header signing differently (and differently between their own acks); binds, further legs and requests interleave.  For
+    every request the buffer types handed to the security context are compared with what THAT connection negotiated: signing
+    iff every ack of that connection carried the flag."""
+    import struct
+
+    from dpapi_ng import _client as cl
+    from vf.props import c13
+
+    rng = common.rng_for(ID, spec)
+    api = spec["api"]
+    BT = c13.BT
+    loop = asyncio.new_event_loop()
+    asyncio.set_event_loop(loop)
+
+    def new_conn(flags: t.Tuple[bool, bool]):
+        ctx = tr.ScriptedContext((b"C1", b"C2"), 2, 16)
+        server = tr.ScriptedContext((), 0, 16)
+        state = {"n": 0}
+        sign = all(flags)
+
+        def handler(data):
+            i = state["n"]
+            state["n"] += 1
+            if i == 0:
+                return [c13.ack(rrpc.BIND_ACK, flags[0], b"S1", tr.call_id_of(data))]
+            if i == 1:
+                return [c13.ack(rrpc.ALTER_CONTEXT_RESP, flags[1], b"", tr.call_id_of(data))]
+            body = b"\x33" * 16
+            header = rrpc.header(rrpc.RESPONSE, FL, 24 + len(body) + 8 + 16, 16, tr.call_id_of(data)) + struct.pack("<IHBB", len(body), 0, 0, 0)
+            trailer = struct.pack("<BBBBI", 10, 6, 0, 0, 0)
+            st = BT.sign_only if sign else BT.data_readonly
+            res = server.wrap_iov([(st, header), body, (st, trailer), BT.header], encrypt=True, qop=None)
+            return [header + res.buffers[1].data + trailer + res.buffers[3].data]
+
+        transport = tr.FakeSocket(handler) if api == "sync" else tr.FakeStream(handler, eof_after_each_reply=False)
+        return dict(ctx=ctx, sign=sign, flags=flags, client=c13.make_client(api, transport, ctx))
+
+    def do(x):
+        return loop.run_until_complete(asyncio.wait_for(x, 30)) if api == "async" else x
+
+    try:
+        for case in range(spec["n"]):
+            k = rng.choice([2, 2, 3])
+            conns = [new_conn((rng.random() < 0.6, rng.random() < 0.7)) for _ in range(k)]
+            if case % 2 == 0:
+                conns[0] = new_conn((True, True))
+                conns[1] = new_conn((False, False) if case % 4 == 0 else (True, False))
+            seq = [("bind", j) for j in range(k)] + [("req", j) for j in range(k) for _ in range(rng.randrange(1, 3))]
+            rng.shuffle(seq)
+            bound = set()
+            wit = {"kind": "two-clients", "api": api, "flags": [list(c["flags"]) for c in conns], "sequence": [list(x) for x in seq], "case": case, "shard": spec["name"]}
+            try:
+                for op, j in seq:
+                    c = conns[j]
+                    if j not in bound:
+                        do(c["client"].bind(cl._ISD_KEY_CONTEXTS))
+                        bound.add(j)
+                    if op == "bind":
+                        continue
+                    c["ctx"].log.clear()
+                    do(c["client"].request(0, 0, rng.randbytes(rng.choice([0, 7, 16, 40])), verification_trailer=cl._VERIFICATION_TRAILER))
+                    wraps = [e for e in c["ctx"].log if e[0] == "wrap"]
+                    rec.count("per_connection_sign_decisions")
+                    if len(wraps) != 1:
+                        rec.violation("request-not-sealed", f"{len(wraps)} wrap calls for one request on connection {j}", wit)
+                        continue
+                    used = any(bt == BT.sign_only for bt, _ in wraps[0][1])
+                    if used != c["sign"]:
+                        rec.violation("header-sign-decision", f"connection {j} negotiated header signing {'on' if c['sign'] else 'off'} (its acks: {c['flags']}) but its request was {'signed' if used else 'not signed'} over header/trailer while other connections {[x['flags'] for x in conns]} were alive", dict(wit, connection=j))
+            except Exception as e:
+                rec.violation("two-connections-exception", f"{type(e).__name__}: {e}", wit)
+            rec.case(("two-connections", api, case), nontrivial=True)
+        rec.sample({"kind": "several live connections, different header-sign negotiations", "api": api, "cases": spec["n"], "last": wit})
+    finally:
+        loop.close()
+
+
 def run_shard(spec, rec: Recorder):
     if not common.calibrate(rec, "rpc", "gkdi", "cms"):
         return
-    {"tree": run_tree, "real": run_real, "long": run_long}[spec["kind"]](spec, rec)
+    {"tree": run_tree, "real": run_real, "long": run_long, "two_connections": run_two_connections}[spec["kind"]](spec, rec)
 
 
 def replay(body, rec: Recorder):
